@@ -219,6 +219,8 @@ def layout(kind, c, sig, l):
         L = [("hexp", G1S[c], "&self->hexp"), ("idx", 4, "idx:self")]
     elif kind == "lqibe::Params":
         L = [("p", G2S[c], "&self->p"), ("sp", G2S[c], "&self->sp")]
+    elif kind == "lqibe::MasterKey":
+        L = [("s", 32, "raw:&self->s")]
     elif kind == "lqibe::ID":
         L = [("q", G1S[c], "&self->q")]
     elif kind == "lqibe::SecretKey":
@@ -250,7 +252,7 @@ def slot_type(kind):
 
 def c_marshal(kind, c, sig, l):
     lay, n = layout(kind, c, sig, l)
-    evs = [(off, sz, ref) for (nm, off, sz, ref) in lay if ref and not ref.startswith("idx:")]
+    evs = [(off, sz, ref) for (nm, off, sz, ref) in lay if ref and not ref.startswith("idx:") and not ref.startswith("raw:")]
     pre = [fresh("self"), "__CPROVER_is_fresh(buffer, %d)" % n]
     if has_slots(kind):
         fld, ty = slot_type(kind)
@@ -264,6 +266,9 @@ def c_marshal(kind, c, sig, l):
     for (nm, off, sz, ref) in lay:
         if nm == "flag":
             post.append("((const uint8_t *)buffer)[0] == %d" % (1 if sig else 0))
+        if ref and ref.startswith("raw:"):
+            # the object's bytes as they lie in memory
+            post += ["((const uint8_t *)buffer)[%d] == ((const uint8_t *)(%s))[%d]" % (off + k, ref[4:], k) for k in range(sz)]
         if ref and ref.startswith("idx:"):
             who = ref[4:]
             src = "self->idx" if who == "self" else "self->b[%s].idx" % who
@@ -273,7 +278,7 @@ def c_marshal(kind, c, sig, l):
 
 def c_unmarshal(kind, c, sig, l):
     lay, n = layout(kind, c, sig, l)
-    evs = [(off, sz, ref) for (nm, off, sz, ref) in lay if ref and not ref.startswith("idx:")]
+    evs = [(off, sz, ref) for (nm, off, sz, ref) in lay if ref and not ref.startswith("idx:") and not ref.startswith("raw:")]
     pre = [fresh("self"), "__CPROVER_is_fresh(buffer, %d)" % n]
     if has_slots(kind):
         fld, ty = slot_type(kind)
@@ -288,6 +293,8 @@ def c_unmarshal(kind, c, sig, l):
         if ref is None:
             if has_slots(kind):
                 concl.append("self->signatures == %d" % (1 if sig else 0))
+        elif ref.startswith("raw:"):
+            concl += ["((const uint8_t *)(%s))[%d] == ((const uint8_t *)buffer)[%d]" % (ref[4:], k, off + k) for k in range(sz)]
         elif ref.startswith("idx:"):
             who = ref[4:]
             dst = "self->idx" if who == "self" else "self->b[%s].idx" % who
@@ -309,7 +316,7 @@ def c_unmarshal(kind, c, sig, l):
 def struct_units():
     us = []
     kinds = [("wkdibe::Params", (0, 1, 2)), ("wkdibe::SecretKey", (0, 1, 2)), ("wkdibe::Ciphertext", (0,)), ("wkdibe::Signature", (0,)), ("wkdibe::MasterKey", (0,)), ("wkdibe::FreeSlot", (0,)),
-             ("lqibe::Params", (0,)), ("lqibe::ID", (0,)), ("lqibe::SecretKey", (0,)), ("lqibe::Ciphertext", (0,))]
+             ("lqibe::Params", (0,)), ("lqibe::MasterKey", (0,)), ("lqibe::ID", (0,)), ("lqibe::SecretKey", (0,)), ("lqibe::Ciphertext", (0,))]
     for kind, ls in kinds:
         for c in (1, 0):
             for l in ls:
@@ -324,11 +331,13 @@ def struct_units():
                             bodies = ["wkdibe::uint32_swap_endianness"]
                         lab = q + ("[l=%d,flag=%d]" % (l, sig) if has_slots(kind) else "")
                         u = BVUnit(q, {q: contract}, P15, bodies=bodies, unwind=l + 2, label=lab, spec_prelude=TRACE, timeout=900,
-                                   canary=("jpv_nev == %d" % len([1 for x in layout(kind, c, sig, l)[0] if x[3] and not x[3].startswith("idx:")]), "jpv_nev == 77"),
+                                   canary=("jpv_nev == %d" % len([1 for x in layout(kind, c, sig, l)[0] if x[3] and not x[3].startswith("idx:") and not x[3].startswith("raw:")]), "jpv_nev == 77"),
                                    kind="bounded" if has_slots(kind) else "proof", bound=("slot count l = %d" % l) if has_slots(kind) else None,
                                    tier="quick" if l <= 1 else "quick", extra=["--object-bits", "10"],
                                    note="group encoders / decoders / pairing replaced by ghost recorders (trusted stubs); buffer of exactly the format's length")
                         u.stub_factory = (lambda tu, c=c: stubs(tu, c))
+                        if kind == "lqibe::MasterKey":
+                            u.tu_variant = "lqcapi"         # header-only templates: instantiated by the C wrappers
                         us.append(u)
     return us
 
@@ -346,6 +355,38 @@ def align_hook(rec, unit, result, fresh, tu, wd, wit):
     from jast import unity_source, clang_flags
     if not any("alignment:" in (f[1] + (f[2] if len(f) > 2 else "")) for f in fresh):
         return False
+    if "lqibe::MasterKey" in unit.label:
+        src = unity_source(variant="lqcapi") + r"""
+#include <stdio.h>
+#include <string.h>
+namespace L = embedded_pairing::lqibe;
+int main() {
+  alignas(16) unsigned char raw[96]; L::MasterKey m, m2; memset(&m, 0x5a, sizeof m);
+  m.marshal<true>(raw + 1); m2.unmarshal<true>(raw + 1, true); m.marshal<false>(raw + 1); m2.unmarshal<false>(raw + 1, true);
+  printf("roundtrip %d\n", (int)(memcmp(&m, &m2, sizeof m) == 0));
+  return 0; }
+"""
+        p = os.path.join(wd, "align_native_lq.cpp")
+        open(p, "w").write(src)
+        r = subprocess.run(["clang++"] + clang_flags() + ["-O1", "-w", "-fsanitize=alignment", p, "-o", p[:-4]], capture_output=True, text=True)
+        if r.returncode != 0:
+            rec["native_driver_error"] = r.stderr[-1200:]
+            return False
+        r = subprocess.run([p[:-4]], capture_output=True, text=True, timeout=300)
+        out = (r.stdout + r.stderr)
+        rec["native_ubsan_output"] = out[-1500:]
+        ok = "misaligned address" in out
+        if not ok:
+            # aggregate copies are not instrumented by -fsanitize=alignment; the optimised build uses aligned vector moves and faults
+            r = subprocess.run(["clang++"] + clang_flags() + ["-O3", "-w", p, "-o", p[:-4] + "_o3"], capture_output=True, text=True)
+            if r.returncode == 0:
+                r = subprocess.run([p[:-4] + "_o3"], capture_output=True, text=True, timeout=300)
+                rec["native_o3_exit"] = r.returncode
+                ok = r.returncode < 0
+        rec["confirmed_on_real_code"] = ok
+        if ok:
+            rec["failing_input"] = "lqibe::MasterKey::marshal / unmarshal on a buffer at address 16k+1 (any byte pointer is a valid argument): UBSan report or hardware fault (signal) in the optimised build"
+        return ok
     src = unity_source() + r"""
 #include <stdio.h>
 #include <stdlib.h>
@@ -389,7 +430,7 @@ _mu2 = units
 def units():
     us = _mu2()
     for u in us:
-        if "::marshal<" in u.label or "::unmarshal<" in u.label:
+        if ("::marshal<" in u.label or "::unmarshal<" in u.label) and "every l" not in u.label:
             if getattr(u, "replay_hook", None) is None:
                 u.replay_hook = align_hook
     return us
